@@ -1,6 +1,7 @@
 //! C13 (malformed HTTP messages): drive the REAL crate with generated header blocks.
 //!
 //!   httprules --seed S --n N [--mode recv|send|corpus|all]
+//!   httprules --replay file.json     (re-run receive cases: array of {role, head_req, ext, hls, frames})
 //!
 //! recv mode: one real endpoint (client or server, `h2verif_harness::driver::Driver`) against the scripted raw
 //! peer.  The peer sends, on one stream, a list of frames built from a generated case:
@@ -237,6 +238,15 @@ fn drain(d: &mut Driver, app: &mut App, client: bool) -> Value {
     let mut ev: Vec<Value> = Vec::new();
     if !client {
         if !app.accept_done {
+            // the driver drops the connection object once its future has completed (as an executor
+            // would); the accept loop of the application ends with that result
+            let gone = matches!(&d.ep, Endpoint::Server { conn: None });
+            if gone {
+                if let Some(done) = d.conn_done.clone() {
+                    ev.push(json!(["accept_end", if done == "Ok" || done == "accept:None" { "None".to_string() } else { done }]));
+                    app.accept_done = true;
+                }
+            }
             let acc = match &mut d.ep {
                 Endpoint::Server { conn: Some(conn) } => conn.poll_accept(&mut cx),
                 _ => Poll::Pending,
@@ -974,6 +984,36 @@ fn gen_case(rng: &mut Rng) -> Case {
     c
 }
 
+fn bytes_of(v: &Value) -> Vec<u8> {
+    v.as_array().map(|a| a.iter().map(|x| x.as_u64().unwrap_or(0) as u8).collect()).unwrap_or_default()
+}
+
+fn fields_of(v: &Value) -> Vec<Field> {
+    v.as_array().map(|a| a.iter().map(|f| (bytes_of(&f[0]), bytes_of(&f[1]))).collect()).unwrap_or_default()
+}
+
+fn case_from_json(v: &Value) -> Case {
+    let mut frames = Vec::new();
+    if let Some(a) = v["frames"].as_array() {
+        for fr in a {
+            match fr["t"].as_str() {
+                Some("H") => frames.push(Fr::H { fields: fields_of(&fr["fields"]), eos: fr["eos"].as_bool().unwrap_or(false) }),
+                Some("D") => frames.push(Fr::D { len: fr["len"].as_u64().unwrap_or(0) as usize, eos: fr["eos"].as_bool().unwrap_or(false) }),
+                Some("PP") => frames.push(Fr::PP { fields: fields_of(&fr["fields"]) }),
+                _ => {}
+            }
+        }
+    }
+    Case {
+        client: v["role"].as_str() == Some("client"),
+        head_req: v["head_req"].as_bool().unwrap_or(false),
+        ext: v["ext"].as_bool().unwrap_or(false),
+        hls: v["hls"].as_u64().map(|x| x as u32),
+        frames,
+        cat: vec!["replay".into()],
+    }
+}
+
 fn case(client: bool, head_req: bool, ext: bool, frames: Vec<Fr>, cat: &str) -> Case {
     Case { client, head_req, ext, hls: None, frames, cat: vec!["corpus".into(), cat.into()] }
 }
@@ -1204,6 +1244,22 @@ fn main() {
         );
         *idx += 1;
     };
+    if let Some(path) = a.get("replay") {
+        // re-run recorded receive cases: a JSON array (or one object) of {role, head_req, ext, hls, frames}
+        let text = std::fs::read_to_string(path).expect("read replay file");
+        let v: Value = serde_json::from_str(&text).expect("json");
+        let list: Vec<Value> = match v {
+            Value::Array(a) => a,
+            Value::Object(_) => vec![if v.get("case").is_some() { v["case"].clone() } else { v }],
+            _ => vec![],
+        };
+        for cv in &list {
+            let c = case_from_json(cv);
+            emit_recv(&c, &mut idx, &mut hist);
+        }
+        println!("{}", json!({"summary": {"cases": idx, "categories": hist}}));
+        return;
+    }
     if mode == "corpus" || mode == "all" || mode == "recv" {
         for c in corpus() {
             emit_recv(&c, &mut idx, &mut hist);
